@@ -634,9 +634,64 @@ CHECKS = dict(const=check_const, delta=check_delta, vector_delta=check_vector_de
               poly=check_poly, poly_forms=check_poly_forms, rand=check_rand, rand_stab=check_rand_stab)
 
 
+def check_forms(tn, kind, inp):
+    """argument forms and call history: the same constructor call with the shape / index arguments as tuple, int64 and int32
+    ndarrays, the value as np.float64 / Python int where integral, must build bit-identically the same cores as the canonical
+    (list, float) call, twice in a row, without modifying its arguments.  Undocumented forms may raise, never differ."""
+    def cores(Y):
+        return [np.asarray(G, dtype=float) for G in Y]
+
+    def same(A, B):
+        return len(A) == len(B) and all(a.shape == b.shape and np.array_equal(a, b) for a, b in zip(A, B))
+
+    def num(x):
+        return float.fromhex(x) if isinstance(x, str) else float(x)
+    try:
+        if kind == 'const':
+            ns, v, Iz, inz = inp['ns'], num(inp['v']), inp['Iz'], inp['inz']
+            kw = lambda f: {k: x for k, x in (('I_zero', None if Iz is None else f(Iz)), ('i_non_zero', None if inz is None else f(inz))) if x is not None}
+            call = lambda f, vv=v: tn.const(f(ns), vv, **kw(f))
+        elif kind == 'delta':
+            ns, i, v = inp['ns'], inp['i'], num(inp['v'])
+            call = lambda f, vv=v: tn.delta(f(ns), f(i), vv)
+        elif kind == 'poly':
+            ns, sh, power, scale = inp['ns'], inp['shift'], inp['power'], num(inp['scale'])
+            shf = float(sh) if not isinstance(sh, list) else [float(x) for x in sh]
+            call = lambda f, vv=scale: tn.poly(f(ns), shf, power, vv)
+        else:
+            return None
+        base = cores(call(lambda x: [list(r) if isinstance(r, (list, tuple)) else r for r in x] if isinstance(x, list) else x))
+    except Exception:
+        return None            # the canonical call is judged by the main oracle
+    forms = [('tuple', lambda x: tuple(tuple(r) if isinstance(r, (list, tuple)) else r for r in x)),
+             ('int64 ndarray', lambda x: np.array(x, dtype=np.int64)), ('int32 ndarray', lambda x: np.array(x, dtype=np.int32))]
+    for name, f in forms:
+        for rep in (1, 2):
+            args = None
+            try:
+                got = cores(call(f))
+            except Exception:
+                break               # a form that raises is tolerated
+            if not same(got, base):
+                return dict(what=f'{kind}: shape / index arguments given as {name} (call {rep}) build a different tensor than lists')
+    for name, vv in (('np.float64', np.float64), ('int', int)):
+        val = num(inp['v'] if kind in ('const', 'delta') else inp['scale'])
+        if name == 'int' and val != int(val):
+            continue
+        try:
+            got = cores(call(lambda x: x, vv(val)))
+        except Exception:
+            continue
+        if not same(got, base):
+            return dict(what=f'{kind}: value given as {name} builds a different tensor than the same float')
+    return None
+
+
 def _run(tn, kind, inp):
     try:
         f = CHECKS[kind](tn, inp)
+        if f is None and kind in ('const', 'delta', 'poly'):
+            f = check_forms(tn, kind, inp)
     except Exception as e:  # noqa
         f = dict(what=f'{kind}: oracle could not evaluate the result: ' + repr(e)[:200])
     if f:
